@@ -14,7 +14,7 @@ from ..market import outside_price_domain
 from ..core import History, Inconclusive, Stats, Violation, bit_equal, thash
 from ..gen import (gen_price_scale, STOCK_KINDS, bs_ok, features_for, gen_barrier, gen_criterion, gen_derivative, gen_hedger,
                    gen_primary, nin_of, BS_INPUTS)
-from ..world import (DT, HAS_VOL, OPTION_KINDS, RecModel, World, abstract_state, build_feature,
+from ..world import (HAS_VARBUF, DT, HAS_VOL, OPTION_KINDS, RecModel, World, abstract_state, build_feature,
                      cast_module_outputs, feature_name, is_state_dep_spec, stepwise_twin)
 
 ID = "C03"
@@ -36,7 +36,7 @@ ASSUMPTIONS = [
     "prev_hedge columns vs previous output: bitwise",
     "'empty' feature excluded; CPU only",
 ]
-PROBES = ["feature_object_bound_to_two_contracts", "price_scale_not_one", "contract_changed_on_same_paths", "feature_schedule", "hedger_schedule", "recurrent_log", "recurrent_after_fault", "H2", "listed_hedge",
+PROBES = ["pass_through_model_on_buffer_view", "feature_object_bound_to_two_contracts", "price_scale_not_one", "contract_changed_on_same_paths", "feature_schedule", "hedger_schedule", "recurrent_log", "recurrent_after_fault", "H2", "listed_hedge",
           "other_use_between", "prev_hedge_not_last", "loss_compared", "ww_model", "bound_feature_reused", "steps_out_of_order", "recurrent_under_grad"]
 
 
@@ -68,6 +68,13 @@ def generate(rng):
     crits = [gen_criterion(rng, "c0", ["EntropicRiskMeasure", "ExpectedShortfall", "EntropicLoss"])]
     kinds = ["linear", "mlp", "mlp", "sin", "pf_mlp", "naked", "bs", "ww"]
     m0, h0 = gen_hedger(rng, "h0", "m0", d, pkind, H=H, listed=bool(d.get("listed")), kinds=kinds, state=False, crit="c0")
+    if H == 1 and rng.chance(0.1):
+        # round-7 mutant C03-m: a model that hands its input through, fed by a single feature that is a view of an instrument
+        # buffer - the all-steps branch writes the maturity column of the model's output in place
+        f1 = rng.choice(["underlier_spot", "underlier_spot"] + (["variance"] if pkind in HAS_VARBUF else [])
+                        + (["spot"] if d.get("listed") else []))
+        m0 = {"id": "m0", "kind": "passthrough", "in": 1, "out": 1, "init_seed": 1}
+        h0 = {"id": "h0", "model": "m0", "inputs": [f1], "criterion": "c0"}
     m1, h1 = gen_hedger(rng, "h1", "m1", d, pkind, H=H, listed=bool(d.get("listed")), kinds=kinds, state=True, crit="c0")
     world = {"primaries": [prim], "derivatives": derivs, "models": [m0, m1], "criteria": crits, "hedgers": [h0, h1]}
     n0 = rng.npaths([1, 2, 3, 5, 8])
@@ -359,6 +366,8 @@ def _execute(program, stats, hist):
             hspec = world.spec_of("hedgers", op["hedger"])
             Hn = len(op["hedge"]) if op.get("hedge") else 1
             hv = world.hedgers[op["hedger"]]
+            if world.spec_of("models", hspec["model"])["kind"] == "passthrough":
+                stats.probe("pass_through_model_on_buffer_view")
             _prep(world, hv, d)
             hs = stepwise_twin(world, op["hedger"], Hn)
             _prep(world, hs, d)
@@ -378,6 +387,10 @@ def _execute(program, stats, hist):
             hs.model.reset()
             try:
                 with torch.no_grad():
+                    # the stepwise schedule once BEFORE the all-steps one has touched anything: if one schedule changed the market
+                    # it runs on, both would agree afterwards - on the changed market
+                    pls0 = hs.compute_pl(d, hedge=hedge)
+                    hs.model.reset()
                     a = hv.compute_hedge(d, hedge=hedge)
                     plv = hv.compute_pl(d, hedge=hedge)
                     hv.model.reset()
@@ -421,6 +434,10 @@ def _execute(program, stats, hist):
             ok, worst = _close(plv, pls, rtol, atol * pl_scale)
             if not ok:
                 raise Violation(ID, "schedule_disagreement", "compute_pl", {"vectorised": plv, "stepwise": pls, "worst": worst}, seq)
+            ok, worst = _close(plv, pls0, rtol, atol * pl_scale)
+            if not ok:
+                raise Violation(ID, "schedule_disagreement", "compute_pl[stepwise schedule evaluated first]",
+                                {"vectorised": plv, "stepwise_before": pls0, "stepwise_after": pls, "worst": worst}, seq)
             crit = hv.criterion
             try:
                 if float(plv.detach().abs().max()) > 50.0:
